@@ -97,6 +97,30 @@ fn main() {
         same("String vs &str vs Box<str> vs Arc<str>", &st, st.as_str(), &st);
         same("String vs Arc<str>", &st, &Arc::<str>::from(st.as_str()), &st);
         same("T vs Box<T> vs &T", &canon, &Box::new(canon.clone()), "btreemap");
+        {
+            // owned vs borrowed storage: Cow in both states, Rc, &mut -- all must hash like the value itself
+            use std::borrow::Cow;
+            let owned: Cow<'_, Vec<u32>> = Cow::Owned(keys.clone());
+            let borrowed: Cow<'_, Vec<u32>> = Cow::Borrowed(&keys);
+            same("Cow::Owned vs Cow::Borrowed", &owned, &borrowed, &format!("{keys:?}"));
+            same("Cow::Borrowed vs the value itself", &borrowed, &keys, &format!("{keys:?}"));
+            same("Cow::Owned vs the value itself", &owned, &keys, &format!("{keys:?}"));
+            let cs_o: Cow<'_, String> = Cow::Owned(st.clone());
+            let cs_b: Cow<'_, String> = Cow::Borrowed(&st);
+            same("Cow<String> owned vs borrowed", &cs_o, &cs_b, &st);
+            same("Cow<String> vs String", &cs_b, &st, &st);
+            same("Rc<T> vs T", &std::rc::Rc::new(keys.clone()), &keys, &format!("{keys:?}"));
+            let mut km = keys.clone();
+            let expect = h(&keys);
+            let r: &mut Vec<u32> = &mut km;
+            let got = h(&r);
+            if got != expect { report_found("&mut T vs T", &format!("{keys:?}"), &format!("{got:#x} vs {expect:#x}"), "equal hashes for equal values"); }
+            // a Cow that went through a serialization round trip comes back Owned
+            let plugin = qbice_serialize::Plugin::default();
+            let bytes = qbice_serialize::postcard::encode(&borrowed, &plugin).unwrap();
+            let back: Cow<'_, Vec<u32>> = qbice_serialize::postcard::decode(&bytes, &plugin).unwrap();
+            same("hash preserved by a serialization round trip (Cow::Borrowed -> Owned)", &borrowed, &back, &format!("{keys:?}"));
+        }
         // ---------- serialization round trip
         let plugin = qbice_serialize::Plugin::default();
         let bytes = qbice_serialize::postcard::encode(&m1, &plugin).unwrap();
@@ -110,6 +134,26 @@ fn main() {
     same("f64 NaN payloads", &f64::from_bits(0x7ff8_0000_0000_0001), &f64::from_bits(0xfff8_dead_beef_0000), "two NaNs");
     // ---------- discriminating
     all_distinct("Vec<Vec<u8>> re-bracketing", &[vec![vec![1u8], vec![]], vec![vec![], vec![1u8]], vec![vec![1u8]], vec![vec![], vec![], vec![1u8]], vec![], vec![vec![]], vec![vec![], vec![]], vec![vec![0u8]], vec![vec![0u8, 0]], vec![vec![0u8], vec![0]]]);
+    {
+        // length-prefix traps around one-byte lengths: if short lengths were ever written in fewer bytes with an escape byte for
+        // long ones, a length equal to the escape byte is ambiguous: a = (e bytes, 9 bytes) vs b = (n >= 256 bytes, empty)
+        for e in [0xFFusize, 0xFE, 0xFD, 0x80, 0x7F] {
+            for n in [256usize, 257, 300, 400] {
+                if e < 16 || n <= e + 1 { continue; }
+                let len2 = n - e + 8; // length of the second component of a
+                if len2 >= e { continue; }
+                let mut b1: Vec<u8> = (0..n).map(|i| (i % 251) as u8).collect();
+                b1[e - 8] = len2 as u8;
+                let b: (Vec<u8>, Vec<u8>) = (b1.clone(), Vec::new());
+                let mut a1: Vec<u8> = n.to_le_bytes().to_vec();
+                a1.extend_from_slice(&b1[..e - 8]);
+                let mut a2: Vec<u8> = b1[e - 8 + 1..].to_vec();
+                a2.push(0);
+                let a: (Vec<u8>, Vec<u8>) = (a1, a2);
+                all_distinct(&format!("(Vec<u8>,Vec<u8>) length {e} vs length {n} (length-prefix ambiguity)"), &[a, b]);
+            }
+        }
+    }
     all_distinct("(String,String) boundary", &[("ab".to_string(), "c".to_string()), ("a".to_string(), "bc".to_string()), ("abc".to_string(), "".to_string()), ("".to_string(), "abc".to_string())]);
     all_distinct("Option nesting", &[None, Some(None), Some(Some(0u8)), Some(Some(1u8))]);
     all_distinct("Option<u8>", &[None, Some(0u8), Some(1u8)]);
